@@ -390,10 +390,10 @@ class Client:
         :param password: clear password
         :return: True on success, False otherwise.
         """
-        extralines = [
-            b'"%s"' % base64.b64encode(login),
-            b'"%s"' % base64.b64encode(password),
-        ]
+        # quoted strings, or literals when they exceed 1024 octets
+        extralines = self.__prepare_args(
+            [base64.b64encode(login), base64.b64encode(password)]
+        )
         code, data = self.__send_command(
             "AUTHENTICATE", [b"LOGIN"], extralines=extralines
         )
@@ -415,8 +415,9 @@ class Client:
         )
         dmd5 = DigestMD5(challenge, "sieve/%s" % self.srvaddr)
 
+        response = dmd5.response(login, password, authz_id).encode("ascii")
         code, data, challenge = self.__send_command(
-            '"%s"' % dmd5.response(login, password, authz_id),
+            self.__prepare_args([response])[0].decode("ascii"),
             withcontent=True,
             nblines=1,
         )
